@@ -66,6 +66,14 @@ POOL = [
     ('SELECT {0} - verif_yield(a, 26) AS x, {1} AS s FROM #t0 WHERE {2} - a > 0', ['int', 'str', 'int'], ()),
     ('SELECT a, a - {0} AS x FROM #t0 WHERE a > {1}', ['int', 'int'], ()),
     ('SELECT nosuch FROM #t0', [], ('bad',)),
+    # casts of user metadata (explicit and implicit), DISTINCT / ORDER BY / PIVOT post-processing passes
+    ('SELECT account, decimal(any_meta("qty")) AS q, verif_yield(number, 80) AS n', [], ('cast',)),
+    ('SELECT account, entry_meta("qty") AS raw WHERE entry_meta("qty") > {0}', ['int'], ('cast',)),
+    ('SELECT account, int(any_meta("qty")) AS i, str(number) AS s, date(year, month, day) AS d WHERE verif_yield(number, 81) < 0', [], ('cast',)),
+    ('SELECT DISTINCT account', [], ('distinct',)),
+    ('SELECT DISTINCT currency, cost_currency ORDER BY 1', [], ('distinct',)),
+    ('SELECT DISTINCT account, year WHERE number > {0} LIMIT 5', ['dec'], ('distinct',)),
+    ('SELECT DISTINCT payee, narration ORDER BY payee DESC, narration', [], ('distinct',)),
     # a yield site between the operand evaluations of functions with several operands
     ('SELECT account, root(account, verif_yield(2, 65)) AS r, maxwidth(narration, verif_yield(6, 66)) AS w', [], ('multiop',)),
     ('SELECT account, grep("Bank|Food", verif_yield(account, 67)) AS g, subst("a", "A", verif_yield(account, 68)) AS s', [], ('multiop',)),
@@ -116,7 +124,7 @@ def generate(rng, tier, run):
             ledgers.append(world.gen_ledger(rng, n_txn=rng.randint(2, 6)))
     t0 = world.gen_table(rng, 't0', nrows=rng.randint(1, 7), cols=T0_COLS, nullable=0.1)
     # swarm: weight statement families per run
-    fam = {'multiop': rng.choice([0.5, 1, 3]), 'wide': rng.choice([0.5, 1, 3]), 'cooked': rng.choice([0.5, 1, 3]), 'acct': rng.choice([0.3, 1, 3]), 'postfinal': rng.choice([0.5, 2, 4]), 'compile': rng.choice([0.5, 1, 3]), 'bal2': rng.choice([0.5, 2, 4]), 'bal1': rng.choice([0.5, 1, 3]), 'agg': rng.choice([0.5, 1, 2]),
+    fam = {'cast': rng.choice([0.5, 1, 3]), 'distinct': rng.choice([0.5, 1, 3]), 'multiop': rng.choice([0.5, 1, 3]), 'wide': rng.choice([0.5, 1, 3]), 'cooked': rng.choice([0.5, 1, 3]), 'acct': rng.choice([0.3, 1, 3]), 'postfinal': rng.choice([0.5, 2, 4]), 'compile': rng.choice([0.5, 1, 3]), 'bal2': rng.choice([0.5, 2, 4]), 'bal1': rng.choice([0.5, 1, 3]), 'agg': rng.choice([0.5, 1, 2]),
            'subq': rng.choice([0.3, 1, 2]), 'from': rng.choice([0.3, 1]), 'fault': 0.6, 'bad': 0.2}
 
     def weight(tags):
